@@ -75,6 +75,7 @@ type CallObs struct {
 	Call *simhttp.Call
 
 	icptCancel context.CancelFunc
+	liveCancel context.CancelFunc
 
 	Ops          []OpRec
 	OpsRcv       []OpRec
@@ -480,6 +481,9 @@ func (e *ErrPlan) build(ctx context.Context) error {
 		return fmt.Errorf("handler gave up: %w", context.DeadlineExceeded)
 	}
 	if e.Plain {
+		if e.WrapEOF {
+			return fmt.Errorf("%s%w", strings.TrimSuffix(e.Msg, "EOF"), io.EOF)
+		}
 		return errors.New(e.Msg)
 	}
 	if e.Shared && e.built != nil {
@@ -488,6 +492,8 @@ func (e *ErrPlan) build(ctx context.Context) error {
 	var ce *connect.Error
 	if e.NilErr {
 		ce = connect.NewError(connect.Code(e.Code), nil)
+	} else if e.WrapEOF {
+		ce = connect.NewError(connect.Code(e.Code), fmt.Errorf("%s%w", strings.TrimSuffix(e.Msg, "EOF"), io.EOF))
 	} else if e.WrapCtx != 0 {
 		// e.Msg ends in the context error's text; the cause really wraps it
 		cause := context.Canceled
@@ -845,6 +851,11 @@ func (w *World) callCtx(o *CallObs) (context.Context, context.CancelFunc, func()
 			ctx, c = context.WithTimeout(ctx, d)
 			cleanup = c
 		}
+	}
+	if o.Plan.LiveCtx {
+		var c context.CancelFunc
+		ctx, c = context.WithCancel(ctx)
+		o.liveCancel = c // never called while the run lasts
 	}
 	if o.Plan.CancelTask || o.Plan.CancelBefore || hasCancelOp(o.Plan) {
 		var c context.CancelFunc
